@@ -253,6 +253,9 @@ class RpcClient:
             raise ValueError(
                 f"Received unexpected PDU response of {type(pdu_resp).__name__} when expecting {resp_type.__name__}"
             )
+        elif self._auth and encrypt_offsets and not pdu_header.auth_len:
+            # The request was sealed, the response must be as well.
+            raise ValueError(f"Received {type(pdu_resp).__name__} that was not protected by the security context")
 
         return pdu_resp
 
